@@ -71,15 +71,23 @@ def _filecombos(n, maxtotal):
 
 def conditions(tier):
     conds = []
-    K = 6 if tier == "quick" else 10
+    K = 4 if tier == "quick" else 7
     tmo = 600 if tier == "quick" else 3000
-    shapes = [("indep2", [1, 1]), ("chain2", [1, 1]), ("indep3", [1, 1, 1]), ("join3", [1, 1, 1]), ("mixed3", [1, 0, 1])]
+    shapes = [("indep2", [1, 1]), ("chain2", [1, 1]), ("join3", [1, 1, 1]), ("mixed3", [1, 0, 1])]
     if tier == "thorough":
-        shapes += [("fork3", [1, 1, 1]), ("diamond4", [1, 1, 1, 1]), ("two2", [1, 1, 1, 1])]
+        shapes += [("indep3", [1, 1, 1]), ("fork3", [1, 1, 1]), ("diamond4", [1, 1, 1, 1]), ("two2", [1, 1, 1, 1])]
     for sh, mask in shapes:
         conds.append({"name": f"process/{sh}-{''.join(map(str, mask))}", "func": "capacity", "shard": {"shape": sh, "K": K, "token": mask}, "timeout": tmo})
     for total, reqs in _filecombos(2, 3 if tier == "thorough" else 2) + ([] if tier == "quick" else []):
         conds.append({"name": f"file/indep2-t{total}r{''.join(map(str, reqs))}", "func": "capacity", "shard": {"shape": "indep2", "K": K, "token": [1, 1], "token_kind": "file", "total": total, "reqs": reqs}, "timeout": tmo})
-    conds.append({"name": "file/indep3-t2r111", "func": "capacity", "shard": {"shape": "indep3", "K": K, "token": [1, 1, 1], "token_kind": "file", "total": 2, "reqs": [1, 1, 1]}, "timeout": tmo})
+    if tier == "thorough":
+        conds.append({"name": "file/indep3-t2r111", "func": "capacity", "shard": {"shape": "indep3", "K": K, "token": [1, 1, 1], "token_kind": "file", "total": 2, "reqs": [1, 1, 1]}, "timeout": tmo})
     conds.append({"name": "file/indep2-t3r21", "func": "capacity", "shard": {"shape": "indep2", "K": K, "token": [1, 1], "token_kind": "file", "total": 3, "reqs": [2, 1]}, "timeout": tmo})
-    return conds
+    heavy = ("indep2", "join3", "indep3", "mixed3", "diamond4", "fork3", "two2")
+    out = []
+    for c in conds:
+        if c["shard"].get("shape") in heavy and c["shard"].get("token_kind") != "file":
+            out.extend(schedlib.with_prefixes(c, 2 if tier == "quick" else 3))
+        else:
+            out.append(c)
+    return out
